@@ -112,15 +112,19 @@ impl RoutingTable {
     /// Return the closest nodes to the target while prioritizing secure nodes,
     /// as defined in [BEP_0042](https://www.bittorrent.org/beps/bep_0042.html)
     pub fn closest(&self, target: Id) -> Box<[Node]> {
-        let mut closest = ClosestNodes::new(target);
+        // Nodes in the table already passed the per IP limits in [Self::add], so sort them
+        // directly instead of going through [ClosestNodes::add], which would apply these limits
+        // again in bucket order and drop a secure node sharing its IP with a non secure one.
+        let mut nodes = self.to_owned_nodes();
 
-        for bucket in self.buckets.values() {
-            for node in &bucket.nodes {
-                closest.add(node.clone());
-            }
-        }
+        nodes.sort_by(|a, b| {
+            b.is_secure()
+                .cmp(&a.is_secure())
+                .then_with(|| a.id().xor(&target).cmp(&b.id().xor(&target)))
+        });
+        nodes.truncate(MAX_BUCKET_SIZE_K);
 
-        closest.nodes()[..MAX_BUCKET_SIZE_K.min(closest.len())].into()
+        nodes.into()
     }
 
     /// Secure version of [Self::closest] that tries to circumvent sybil attacks.
